@@ -784,6 +784,66 @@ class Fragment:
         self.text = self.text[:m.start()] + new + self.text[m.end():]
         self.note('V-ITER', 1, '`(0..N).map(|_| E).collect()` -> `{ let mut __v = Vec::new(); let mut __k = 0; while __k < N { __v.push(E); __k += 1; } __v }` (E verbatim)')
 
+    def iter_extend_map(self, nth=1):
+        """Q.extend(R.into_iter().map(|e| EXPR));  ->  pop-front loop over R pushing EXPR to the back of Q (EXPR verbatim)."""
+        rx = re.compile(r'(?P<q>[A-Za-z_][\w\.]*?)\s*\.extend\(\s*(?P<r>\w+)\s*\.into_iter\(\)\s*\.map\(\|(?P<v>\w+)\|\s*(?P<e>.*?)\),?\s*\);', re.S)
+        s = self._src()
+        it = [m for m in rx.finditer(self.text) if s.mask[m.start()]]
+        if len(it) < nth:
+            raise ScanError(f"{self.what}: V-ITER extend/into_iter/map #{nth} not found")
+        m = it[nth - 1]
+        q, r, v, e = re.sub(r'\s+', '', m.group('q')), m.group('r'), m.group('v'), m.group('e').strip()
+        new = (f"{{ let mut __it = {r}; /*@extend_begin*/\n"
+               f"                        while __it.len() > 0 {{ let {v} = __it.remove(0); {q}.push_back({e}); /*@extend_item*/ }}\n"
+               f"                        /*@extend_end*/ }}")
+        self.text = self.text[:m.start()] + new + self.text[m.end():]
+        self.note('V-ITER', 1, '`Q.extend(R.into_iter().map(|e| EXPR));` -> `let mut __it = R; while __it.len() > 0 { let e = __it.remove(0); Q.push_back(EXPR); }` (EXPR verbatim)')
+
+    def iter_retain(self, nth=1):
+        """M.retain(|k, v| { STMTS; KEEP });  ->  loop over the keys of the map-view model (arbitrary order): the entry is borrowed
+        mutably for STMTS and KEEP, and removed when KEEP is false (STMTS and KEEP verbatim)."""
+        rx = re.compile(r'(?P<m>[A-Za-z_][\w\.]*?)\s*\.retain\(\|(?P<k>\w+), (?P<v>\w+)\|\s*\{', re.S)
+        s = self._src()
+        it = [m for m in rx.finditer(self.text) if s.mask[m.start()]]
+        if len(it) < nth:
+            raise ScanError(f"{self.what}: V-ITER retain #{nth} not found")
+        m = it[nth - 1]
+        ob = m.end() - 1
+        cb = s.match_close(ob)
+        body = self.text[ob + 1:cb]
+        # the statement `.retain( ... );` ends after the closure's closing brace: `})` then `;`
+        tail = re.match(r'\s*\)\s*;', self.text[cb + 1:])
+        if not tail:
+            raise ScanError(f"{self.what}: V-ITER retain: unexpected text after the closure")
+        end = cb + 1 + tail.end()
+        # split the closure body into statements and the final expression (after the last `;` at depth 0)
+        depth = 0
+        last_semi = -1
+        for i in range(ob + 1, cb):
+            if not s.mask[i]:
+                continue
+            ch = self.text[i]
+            if ch in '([{':
+                depth += 1
+            elif ch in ')]}':
+                depth -= 1
+            elif ch == ';' and depth == 0:
+                last_semi = i
+        stmts = self.text[ob + 1:last_semi + 1]
+        keep = self.text[last_semi + 1:cb].strip()
+        mp, k, v = re.sub(r'\s+', '', m.group('m')), m.group('k'), m.group('v')
+        new = (f"{{ let __keys = {mp}.keys_vec(); let mut __q: usize = 0; /*@retain_begin*/\n"
+               f"                    while __q < __keys.len() {{\n"
+               f"                        let {k} = &__keys[__q]; /*@retain_key*/\n"
+               f"                        let __keep: bool = {{ let {v} = {mp}.get_mut_some({k});{stmts}\n                            {keep} }};\n"
+               f"                        /*@retain_decided*/\n"
+               f"                        if !__keep {{ {mp}.remove({k}); }}\n"
+               f"                        __q += 1; /*@retain_step*/\n"
+               f"                    }}\n"
+               f"                    /*@retain_end*/ }}")
+        self.text = self.text[:m.start()] + new + self.text[end:]
+        self.note('V-ITER', 1, '`M.retain(|k, v| { S; KEEP });` -> `for k in M.keys_vec() { let keep = { let v = M.get_mut_some(k); S; KEEP }; if !keep { M.remove(k); } }` over the map-view model, keys in arbitrary order (S, KEEP verbatim)')
+
     # --- function-shaped fragments -----------------------------------------------------------
     def fn_body_open(self):
         s = self._src()
